@@ -20,7 +20,7 @@ def walk(rec, B, rng, N, steps, query, sub="live", start=None, allow_measure=Tru
     gates = [PR.make_gate(B, PR.rand_spec(rng, N, named=(B.name == "np")), N) for _ in range(2)] if N >= 1 else []
     gate_specs = None
     for step in range(steps):
-        k = int(rng.integers(9 if allow_measure else 6))
+        k = int(rng.integers(10 if allow_measure else 6))
         try:
             if k == 0:
                 Gn, PG = gen.rand_nonid(rng, N), 2 * int(rng.integers(2))
@@ -63,6 +63,21 @@ def walk(rec, B, rng, N, steps, query, sub="live", start=None, allow_measure=Tru
             elif k == 5:
                 S = S.copy()
                 hist.append(["copy"])
+            elif k == 9:
+                # a measurement layer applied directly (it writes the state's arrays and rank from outside the state class)
+                if B.name != "np" or not hasattr(B.circuit, "MeasureLayer"):
+                    continue
+                qs = [int(q) for q in rng.permutation(N)[:int(rng.integers(1, N + 1))]]
+                ML = B.circuit.MeasureLayer(*qs, N=N)
+                ML.forward(S)
+                res = [int(x) for x in np.asarray(ML.result).reshape(-1)]
+                for q, x in zip(qs, res):
+                    zg = np.zeros(2 * N, dtype=np.int64)
+                    zg[2 * q + 1] = 1
+                    if G.project(zg, 0, (1 - x) // 2) == 0:
+                        rec.check(sub + ".measure", False, {"history": hist[-6:]}, True, expected="possible outcome", observed=res)
+                        return
+                hist.append(["measure layer", qs, res])
             elif k == 8:
                 # post-selection of a signed Pauli (pure states, pyclifford only): probability 0 leaves the state alone
                 if B.name != "np" or G.r != 0 or not hasattr(S, "postselect"):
